@@ -51,7 +51,7 @@ def configs(tier):
         for ns in sizes:
             for fn in PROFILE_MEASURES:
                 yield dict(name="real-%s-%s-%s" % (be, fn, "".join(map(str, ns))), what="real", backend=be, fn=fn,
-                           ns=list(ns), fork=fn.startswith("spike_pro") or fn.startswith("spike_dist"),
+                           ns=list(ns), fork=fn.startswith("spike_pro") or fn.startswith("spike_dist") or fn.startswith("isi_"),
                            cost=30 * 8 ** sum(ns), validate=2, split_forks=(7 if sum(ns) >= 3 else None))
                 if not (fn.startswith("spike_pro") or fn.startswith("spike_dist")) and sum(ns) <= 3:
                     # MRTS='auto' must be honoured identically through every call form; one index
@@ -65,7 +65,7 @@ def configs(tier):
                             if len(idx) == 3 and sum(ns) > 2:
                                 continue
                         yield dict(name="real-auto-%s-%s-%s-idx%s" % (be, fn, "".join(map(str, ns)), "".join(map(str, idx))),
-                                   what="real", backend=be, fn=fn, ns=list(ns), auto=True, idx=idx,
+                                   what="real", backend=be, fn=fn, ns=list(ns), auto=True, idx=idx, fork=fn.startswith("isi_"),
                                    cost=60 * 8 ** sum(ns), validate=2, split_forks=(7 if sum(ns) >= 3 else None))
 
 def controls(tier):
